@@ -935,6 +935,8 @@ fn main() {
             }
             if prop == "C11" && args.engine_enabled("uth_race") {
                 th_race(&args, &mut rep, prop, sc(300.0, 12_000.0), true, false);
+                // the figures of a closed pool at rest (calls that overlapped close() must leave nothing behind)
+                th_race(&args, &mut rep, prop, sc(120.0, 5_000.0), true, true);
             }
         }
     }
